@@ -63,7 +63,7 @@ class C08(BaseCheck):
              'scales.scales_socket:ScalesSocket.open')
   REQUIRED_ANCHORS = ANCHORS
   REQUIRED_CLASSES = ('thrift', 'mux', 'fault:connect', 'fault:send', 'fault:recv', 'kind:error', 'kind:eof',
-                      'kind:refuse', 'kind:silence', 'reconnect-fault', 'probe', 'ping-silence', 'bare-socket', 'many-inflight', 'reply-and-close-same-instant', 'timeout-in-write', 'silent-with-inflight', 'requests-while-opening',
+                      'kind:refuse', 'kind:silence', 'reconnect-fault', 'probe', 'ping-silence', 'bare-socket', 'error:ETIMEDOUT', 'error:EHOSTUNREACH', 'many-inflight', 'reply-and-close-same-instant', 'timeout-in-write', 'silent-with-inflight', 'requests-while-opening',
                       'expired-on-arrival', 'retry-from-handler', 'request-during-reconnect', 'stalled-peer', 'pings-ignored-under-traffic', 'second-life')
   ASSUMPTIONS = ('a silence fault (peer stops answering without closing) legitimately leaves the transport '
                  'open; only the probe clause applies then',)
@@ -113,7 +113,14 @@ class C08(BaseCheck):
     if op == 'srvclose':
       classes.add('reply-and-close-same-instant')
     elif fkind is not None:
-      net.fault_plan[(srv.ep, conn_ord, op, ordinal)] = simnet.Fault(fkind)
+      # the error the operating system reports varies: a reset, a broken pipe, an unreachable host, or a
+      # connection that timed out at the TCP level (keep-alive / retransmission gave up: ETIMEDOUT, which
+      # Python raises as the built-in TimeoutError)
+      import errno as errno_
+      err_ = (errno_.ECONNRESET, errno_.ETIMEDOUT, errno_.ECONNRESET, errno_.EHOSTUNREACH)[(idx + variant) % 4]
+      if fkind == 'error' and err_ != errno_.ECONNRESET:
+        classes.add('error:' + errno_.errorcode[err_])
+      net.fault_plan[(srv.ep, conn_ord, op, ordinal)] = simnet.Fault(fkind, err_)
       classes.add('fault:' + op)
       classes.add('kind:' + fkind)
     tp = (ThriftTransport if tr == 'thrift' else MuxTransport).Builder()
